@@ -29,16 +29,22 @@ Definition bound_to (t : table) (v : N) (x : tm) : Prop := exists c, get t v = S
 Definition same_class (t : table) (v w : N) : Prop :=
   exists c c', get t v = Some c /\ get t w = Some c' /\ ccls c = ccls c'.
 
-Inductive teq (t : table) (gs : list tm) : tm -> tm -> Prop :=
-| teq_refl a : teq t gs a a
-| teq_sym a b : teq t gs a b -> teq t gs b a
-| teq_trans a b c : teq t gs a b -> teq t gs b c -> teq t gs a c
-| teq_node h cs cs' : Forall2 (teq t gs) cs cs' -> teq t gs (Node h cs) (Node h cs')
-| teq_bound h cs v x : head_var h = Some v -> bound_to t v x -> teq t gs (Node h cs) x
-| teq_class h cs h' cs' v w :
-    head_var h = Some v -> head_var h' = Some w -> same_class t v w -> teq t gs (Node h cs) (Node h' cs')
+(** [teqm w]: with [w = false] a pair of lifetimes must be related by the goals in BOTH directions
+    (the invariant relation); with [w = true] (co- / contravariant relation) one direction is
+    enough, and two unknowns related by a returned subtype goal count as related. *)
+Inductive teqm (w : bool) (t : table) (gs : list tm) : tm -> tm -> Prop :=
+| teq_refl a : teqm w t gs a a
+| teq_sym a b : teqm w t gs a b -> teqm w t gs b a
+| teq_trans a b c : teqm w t gs a b -> teqm w t gs b c -> teqm w t gs a c
+| teq_node h cs cs' : Forall2 (teqm w t gs) cs cs' -> teqm w t gs (Node h cs) (Node h cs')
+| teq_bound h cs v x : head_var h = Some v -> bound_to t v x -> teqm w t gs (Node h cs) x
+| teq_class h cs h' cs' v v' :
+    head_var h = Some v -> head_var h' = Some v' -> same_class t v v' -> teqm w t gs (Node h cs) (Node h' cs')
 | teq_outlives a b :
-    kind_of a = KLt -> kind_of b = KLt -> In (outlives_goal a b) gs -> In (outlives_goal b a) gs -> teq t gs a b.
+    kind_of a = KLt -> kind_of b = KLt -> In (outlives_goal a b) gs -> (w = false -> In (outlives_goal b a) gs) -> teqm w t gs a b
+| teq_subtype a b : w = true -> In (subtype_goal a b) gs -> teqm w t gs a b.
+
+Notation teq := (teqm false).
 
 (** [t'] keeps every binding and every class equality of [t]. *)
 Definition pext (t t' : table) : Prop :=
@@ -50,9 +56,9 @@ Proof. split; auto. Qed.
 Lemma pext_trans t1 t2 t3 : pext t1 t2 -> pext t2 t3 -> pext t1 t3.
 Proof. intros [A B] [C D]. split; auto. Qed.
 
-Lemma teq_mono t gs t' gs' : pext t t' -> incl gs gs' -> forall a b, teq t gs a b -> teq t' gs' a b.
+Lemma teq_mono m t gs t' gs' : pext t t' -> incl gs gs' -> forall a b, teqm m t gs a b -> teqm m t' gs' a b.
 Proof.
-  intros [PB PC] I. fix IH 3. intros a b H. destruct H as [a | a b H | a b c H1 H2 | h cs cs' H | h cs v x Hv Hb | h cs h' cs' v w Hv Hw Hc | a b Ka Kb I1 I2].
+  intros [PB PC] I. fix IH 3. intros a b H. destruct H as [a | a b H | a b c H1 H2 | h cs cs' H | h cs v x Hv Hb | h cs h' cs' v w Hv Hw Hc | a b Ka Kb I1 I2 | a b Hm Hs].
   - apply teq_refl.
   - apply teq_sym. apply IH. exact H.
   - eapply teq_trans; apply IH; eassumption.
@@ -62,6 +68,22 @@ Proof.
   - eapply teq_bound; [exact Hv | apply PB; exact Hb].
   - eapply teq_class; [exact Hv | exact Hw | apply PC; exact Hc].
   - apply teq_outlives; auto.
+  - apply teq_subtype; auto.
+Qed.
+
+Lemma teqm_weaken t gs : forall a b, teq t gs a b -> teqm true t gs a b.
+Proof.
+  fix IH 3. intros a b H. destruct H as [a | a b H | a b c H1 H2 | h cs cs' H | h cs v x Hv Hb | h cs h' cs' v w Hv Hw Hc | a b Ka Kb I1 I2 | a b Hm Hs].
+  - apply teq_refl.
+  - apply teq_sym. apply IH. exact H.
+  - eapply teq_trans; apply IH; eassumption.
+  - apply teq_node. revert cs cs' H. fix IH2 3. intros cs cs' H. destruct H as [| x y r r' Hxy Hr]; constructor.
+    + apply IH. exact Hxy.
+    + apply IH2. exact Hr.
+  - eapply teq_bound; eassumption.
+  - eapply teq_class; eassumption.
+  - apply teq_outlives; auto.
+  - discriminate Hm.
 Qed.
 
 (** What [teq] means: in every model of the table — an interpretation of the head constructors
@@ -86,21 +108,36 @@ Section Model.
   Variable gs : list tm.
   Hypothesis Hbound : forall v x, bound_to t v x -> val v = den x.
   Hypothesis Hclass : forall v w, same_class t v w -> val v = val w.
+  Section Mode.
+    Variable m : bool.
+    Hypothesis Hgoals : forall a b, kind_of a = KLt -> kind_of b = KLt ->
+      In (outlives_goal a b) gs -> (m = false -> In (outlives_goal b a) gs) -> den a = den b.
+    Hypothesis Hsub : m = true -> forall a b, In (subtype_goal a b) gs -> den a = den b.
+
+    Lemma teqm_model : forall a b, teqm m t gs a b -> den a = den b.
+    Proof.
+      fix IH 3. intros a b H. destruct H as [a | a b H | a b c H1 H2 | h cs cs' H | h cs v x Hv Hb | h cs h' cs' v w Hv Hw Hc | a b Ka Kb I1 I2 | a b Hm Hs].
+      - reflexivity.
+      - symmetry. apply IH. exact H.
+      - etransitivity; apply IH; eassumption.
+      - cbn [den]. destruct (head_var h); [reflexivity |]. f_equal.
+        revert cs cs' H. fix IH2 3. intros cs cs' H. destruct H as [| x y r r' Hxy Hr]; cbn [map]; [reflexivity |].
+        f_equal; [apply IH; exact Hxy | apply IH2; exact Hr].
+      - cbn [den]. rewrite Hv. apply Hbound. exact Hb.
+      - cbn [den]. rewrite Hv, Hw. apply Hclass. exact Hc.
+      - apply Hgoals; assumption.
+      - apply Hsub; assumption.
+    Qed.
+  End Mode.
+
   Hypothesis Hgoals : forall a b, kind_of a = KLt -> kind_of b = KLt ->
     In (outlives_goal a b) gs -> In (outlives_goal b a) gs -> den a = den b.
 
   Lemma teq_model : forall a b, teq t gs a b -> den a = den b.
   Proof.
-    fix IH 3. intros a b H. destruct H as [a | a b H | a b c H1 H2 | h cs cs' H | h cs v x Hv Hb | h cs h' cs' v w Hv Hw Hc | a b Ka Kb I1 I2].
-    - reflexivity.
-    - symmetry. apply IH. exact H.
-    - etransitivity; apply IH; eassumption.
-    - cbn [den]. destruct (head_var h); [reflexivity |]. f_equal.
-      revert cs cs' H. fix IH2 3. intros cs cs' H. destruct H as [| x y r r' Hxy Hr]; cbn [map]; [reflexivity |].
-      f_equal; [apply IH; exact Hxy | apply IH2; exact Hr].
-    - cbn [den]. rewrite Hv. apply Hbound. exact Hb.
-    - cbn [den]. rewrite Hv, Hw. apply Hclass. exact Hc.
-    - apply Hgoals; assumption.
+    apply teqm_model.
+    - intros a b Ka Kb I1 I2. apply Hgoals; auto.
+    - intros Q. discriminate Q.
   Qed.
 End Model.
 
@@ -658,13 +695,16 @@ Section Specs.
     eapply wellb_scoped. exact (inv_bnd _ _ _ _ I v c x E B).
   Qed.
 
-  Lemma teq_var_value t gs h cs v c x : head_var h = Some v -> get t v = Some c -> cval c = Bound x -> teq t gs (Node h cs) x.
+  Lemma teq_var_value m t gs h cs v c x : head_var h = Some v -> get t v = Some c -> cval c = Bound x -> teqm m t gs (Node h cs) x.
   Proof. intros Hv E B. eapply teq_bound; [exact Hv |]. exists c. auto. Qed.
 
   Lemma wellb_step K U t K' U' t' m x : step K U t K' U' t' -> wellb U (nvars t) m x -> wellb U' (nvars t') m x.
   Proof. intros (_ & N & H) W. eapply wellb_mono; [exact N | apply N.le_refl | | exact W]. intros w Hw. apply H. exact Hw. Qed.
 
-  Lemma teq_step K U t K' U' t' gs gs' a b : step K U t K' U' t' -> incl gs gs' -> teq t gs a b -> teq t' gs' a b.
+  Lemma teq_to_m m t gs a b : teq t gs a b -> teqm m t gs a b.
+  Proof. destruct m; [apply teqm_weaken | auto]. Qed.
+
+  Lemma teq_step m K U t K' U' t' gs gs' a b : step K U t K' U' t' -> incl gs gs' -> teqm m t gs a b -> teqm m t' gs' a b.
   Proof. intros (P & _) I. apply teq_mono; assumption. Qed.
 
   (** *** The occurs check *)
@@ -996,14 +1036,14 @@ Section Specs.
     exact (inv_sort _ _ _ _ I w c' q E' B' (okt_var_kind K t h' cs' w Op Hw Kp)).
   Qed.
 
-  Lemma shallow_ty_spec K U t gs a0 :
+  Lemma shallow_ty_spec m K U t gs a0 :
     inv K U t -> okt K t a0 ->
-    okt K t (shallow_ty t a0) /\ teq t gs a0 (shallow_ty t a0) /\ nrm t (shallow_ty t a0).
+    okt K t (shallow_ty t a0) /\ teqm m t gs a0 (shallow_ty t a0) /\ nrm t (shallow_ty t a0).
   Proof.
     intros I O. unfold shallow_ty. destruct (probe_tm t a0) as [p |] eqn:P1.
     - destruct (probe_tm_some _ _ _ P1) as (h & cs & v & c & -> & Hv & E & B).
       pose proof (okt_value K U t v c p I E B) as Op.
-      assert (T1 : teq t gs (Node h cs) p) by (eapply teq_var_value; eassumption).
+      assert (T1 : teqm m t gs (Node h cs) p) by (eapply teq_var_value; eassumption).
       destruct (probe_tm t p) as [q |] eqn:P2.
       + destruct (probe_tm_some _ _ _ P2) as (h' & cs' & w & c' & -> & Hw & E' & B').
         split; [eapply okt_value; eassumption |]. split; [eapply teq_trans; [exact T1 | eapply teq_var_value; eassumption] |].
@@ -1021,9 +1061,9 @@ Section Specs.
       intros h cs w c -> Hv E. eapply probe_tm_none; eassumption.
   Qed.
 
-  Lemma shallow1_spec K U t gs a0 :
+  Lemma shallow1_spec m K U t gs a0 :
     inv K U t -> okt K t a0 -> kind_of a0 = KLt ->
-    okt K t (shallow1 t a0) /\ teq t gs a0 (shallow1 t a0) /\ nrm t (shallow1 t a0).
+    okt K t (shallow1 t a0) /\ teqm m t gs a0 (shallow1 t a0) /\ nrm t (shallow1 t a0).
   Proof.
     intros I O KL'. unfold shallow1. destruct (probe_tm t a0) as [p |] eqn:P1.
     - destruct (probe_tm_some _ _ _ P1) as (h & cs & v & c & -> & Hv & E & B).
@@ -1121,42 +1161,61 @@ Section Specs.
     eapply union_spec; eassumption.
   Qed.
 
-  Lemma unify_lt_spec K U t va b vu r t1 g1 :
+  (** the relation proved at variance [v]: [teq] (both directions) for the invariant relation,
+      [teqm true] otherwise *)
+  Definition vm (v : variance) (m : bool) : Prop := v = Invariant \/ m = true.
+
+  Lemma vm_invert v m : vm v m -> vm (invert v) m.
+  Proof. intros [-> | H]; [left; reflexivity | right; exact H]. Qed.
+
+  Lemma push_teq m v t x y : vm v m -> kind_of x = KLt -> kind_of y = KLt ->
+    teqm m t (match v with Covariant => [outlives_goal y x] | Contravariant => [outlives_goal x y] | Invariant => [outlives_goal x y; outlives_goal y x] end) x y.
+  Proof.
+    intros HV Kx Ky. destruct v.
+    - destruct HV as [Q | Q]; [discriminate Q |]. apply teq_sym. apply teq_outlives; auto; [cbn [In]; auto | intros Q'; congruence].
+    - apply teq_outlives; auto; cbn [In]; auto.
+    - destruct HV as [Q | Q]; [discriminate Q |]. apply teq_outlives; auto; [cbn [In]; auto | intros Q'; congruence].
+  Qed.
+
+  Lemma unify_lt_spec m v K U t va b vu r t1 g1 :
+    vm v m ->
     inv K U t -> (forall c, get t va = Some c -> exists u, cval c = Unbound u) -> K va = KL ->
     okt K t b -> kind_of b = KLt -> (forall h cs, b = Node h cs -> head_var h = None) ->
     (forall var_ui, vu <= var_ui -> wellb U (nvars t) var_ui b) ->
-    unify_lifetime_var Invariant va b vu t = (Done r, t1, g1) ->
-    inv K U t1 /\ step K U t K U t1 /\ teq t1 g1 (lt_var va) b.
+    unify_lifetime_var v va b vu t = (Done r, t1, g1) ->
+    inv K U t1 /\ step K U t K U t1 /\ teqm m t1 g1 (lt_var va) b.
   Proof.
-    intros I N1 KV Ob Kb NVb Wb H. unfold unify_lifetime_var in H.
+    intros HV I N1 KV Ob Kb NVb Wb H. unfold unify_lifetime_var in H.
     apply bind_inv in H. destruct H as (c & t2 & g2 & g3 & H1 & H2 & ->). apply get_cell_inv in H1. destruct H1 as (-> & -> & E).
-    destruct (N1 c E) as (u & B). rewrite B in H2. cbn [is_inv variance_eqb] in H2. rewrite andb_true_r in H2.
-    destruct (N.leb_spec vu u) as [L | L].
-    - destruct (bindvar_spec K U t va c u b r t1 g3 I E B Ob (Wb u L)) as (-> & I1 & S1 & Bd); try exact H2.
-      + intros h cs Q HV. rewrite (NVb h cs Q) in HV. contradiction.
+    destruct (N1 c E) as (u & B). rewrite B in H2.
+    destruct ((vu <=? u) && is_inv v) eqn:C.
+    - apply andb_true_iff in C. destruct C as [L _]. apply N.leb_le in L.
+      destruct (bindvar_spec K U t va c u b r t1 g3 I E B Ob (Wb u L)) as (-> & I1 & S1 & Bd); try exact H2.
+      + intros h cs Q HV'. rewrite (NVb h cs Q) in HV'. contradiction.
       + intros [Q | Q]; congruence.
       + intros Q. contradiction.
       + split; [exact I1 |]. split; [exact S1 |]. eapply teq_bound; [reflexivity | exact Bd].
     - apply push_outlives_inv in H2. destruct H2 as (-> & ->). split; [exact I |]. split; [apply step_refl |].
-      apply teq_outlives; try reflexivity; try exact Kb; cbn [app In]; auto.
+      cbn [app]. apply push_teq; [exact HV | reflexivity | exact Kb].
   Qed.
 
-  Lemma rel_lt_norm_spec K U t a b r t1 g1 :
+  Lemma rel_lt_norm_spec m v K U t a b r t1 g1 :
+    vm v m ->
     inv K U t -> okt K t a -> okt K t b -> nrm t a -> nrm t b ->
-    rel_lt_norm Invariant a b t = (Done r, t1, g1) ->
-    exists U1, inv K U1 t1 /\ step K U t K U1 t1 /\ teq t1 g1 a b.
+    rel_lt_norm v a b t = (Done r, t1, g1) ->
+    exists U1, inv K U1 t1 /\ step K U t K U1 t1 /\ teqm m t1 g1 a b.
   Proof.
-    intros I Oa Ob Na Nb H. unfold rel_lt_norm in H.
+    intros HV I Oa Ob Na Nb H. unfold rel_lt_norm in H. pose proof (vm_invert v m HV) as HVi.
     assert (PUSH : forall x y, kind_of x = KLt -> kind_of y = KLt ->
-               (if tm_eqb x y then ret tt else push_outlives Invariant x y) t = (Done r, t1, g1) ->
-               exists U1, inv K U1 t1 /\ step K U t K U1 t1 /\ teq t1 g1 x y).
+               (if tm_eqb x y then ret tt else push_outlives v x y) t = (Done r, t1, g1) ->
+               exists U1, inv K U1 t1 /\ step K U t K U1 t1 /\ teqm m t1 g1 x y).
     { intros x y Kx Ky H'. destruct (tm_eqb x y) eqn:Q.
       - apply tm_eqb_eq in Q. subst y. apply ret_inv in H'. destruct H' as (_ & -> & ->). exists U. split; [exact I |]. split; [apply step_refl | apply teq_refl].
       - apply push_outlives_inv in H'. destruct H' as (-> & ->). exists U. split; [exact I |]. split; [apply step_refl |].
-        apply teq_outlives; try assumption; cbn [In]; auto. }
-    assert (VARL : forall v cs x, x = Node (HLInfer v) cs -> okt K t x -> nrm t x ->
-               x = lt_var v /\ K v = KL /\ (forall c, get t v = Some c -> exists u, cval c = Unbound u)).
-    { intros v cs x -> Ox Nx. pose proof (okt_nil _ _ _ _ Ox eq_refl) as ->. split; [reflexivity |]. split.
+        apply push_teq; assumption. }
+    assert (VARL : forall vv cs x, x = Node (HLInfer vv) cs -> okt K t x -> nrm t x ->
+               x = lt_var vv /\ K vv = KL /\ (forall c, get t vv = Some c -> exists u, cval c = Unbound u)).
+    { intros vv cs x -> Ox Nx. pose proof (okt_nil _ _ _ _ Ox eq_refl) as ->. split; [reflexivity |]. split.
       - destruct Ox as (_ & Kx & _). apply allsub_node in Kx. apply Kx.
       - intros c E. eapply Nx; [reflexivity | reflexivity | exact E]. }
     assert (RIGID : forall x, okt K t x -> match lcls_of x with LPh _ | LStatic | LErased => True | _ => False end ->
@@ -1177,29 +1236,38 @@ Section Specs.
     destruct (lcls_of a) as [va | ua | | | | |] eqn:LA; try congruence; try (apply fail_inv in H; discriminate H);
       destruct (lcls_of b) as [vb | ub | | | | |] eqn:LB; try congruence; try (apply fail_inv in H; discriminate H); cbv iota in H.
     - (* unknown / unknown *)
-      cbn [is_inv variance_eqb] in H. destruct IA as (csa & Qa). destruct IB as (csb & Qb).
+      destruct IA as (csa & Qa). destruct IB as (csb & Qb).
       destruct (VARL va csa a Qa Oa Na) as (-> & Ka & Ca). destruct (VARL vb csb b Qb Ob Nb) as (-> & Kb & Cb).
-      destruct (union_spec' K U t va vb r t1 g1 I Ca Cb ltac:(congruence) H) as (-> & U1 & I1 & S1 & SC).
-      exists U1. split; [exact I1 |]. split; [exact S1 |]. eapply teq_class; [reflexivity | reflexivity | exact SC].
+      destruct (is_inv v).
+      + destruct (union_spec' K U t va vb r t1 g1 I Ca Cb ltac:(congruence) H) as (-> & U1 & I1 & S1 & SC).
+        exists U1. split; [exact I1 |]. split; [exact S1 |]. eapply teq_class; [reflexivity | reflexivity | exact SC].
+      + unfold unless_unioned in H.
+        apply bind_inv in H. destruct H as (ca & t2 & g2 & g3 & H1 & H2 & ->). apply get_cell_inv in H1. destruct H1 as (-> & -> & Ea).
+        apply bind_inv in H2. destruct H2 as (cb & t3 & g4 & g5 & H3 & H4 & ->). apply get_cell_inv in H3. destruct H3 as (-> & -> & Eb).
+        destruct (N.eqb_spec (ccls ca) (ccls cb)) as [Q | Q].
+        * apply ret_inv in H4. destruct H4 as (_ & -> & ->). exists U. split; [exact I |]. split; [apply step_refl |].
+          eapply teq_class; [reflexivity | reflexivity |]. exists ca, cb. auto.
+        * apply push_outlives_inv in H4. destruct H4 as (-> & ->). exists U. split; [exact I |]. split; [apply step_refl |].
+          cbn [app]. apply push_teq; [exact HV | reflexivity | reflexivity].
     - destruct IA as (csa & Qa). destruct (VARL va csa a Qa Oa Na) as (-> & Ka & Ca). destruct (RB Logic.I) as (Kb & NVb & Wb).
-      destruct (unify_lt_spec K U t va b ub r t1 g1 I Ca Ka Ob Kb NVb Wb H) as (I1 & S1 & T1). exists U. auto.
+      destruct (unify_lt_spec m v K U t va b ub r t1 g1 HV I Ca Ka Ob Kb NVb Wb H) as (I1 & S1 & T1). exists U. auto.
     - destruct IA as (csa & Qa). destruct (VARL va csa a Qa Oa Na) as (-> & Ka & Ca). destruct (RB Logic.I) as (Kb & NVb & Wb).
-      destruct (unify_lt_spec K U t va b 0 r t1 g1 I Ca Ka Ob Kb NVb Wb H) as (I1 & S1 & T1). exists U. auto.
+      destruct (unify_lt_spec m v K U t va b 0 r t1 g1 HV I Ca Ka Ob Kb NVb Wb H) as (I1 & S1 & T1). exists U. auto.
     - destruct IA as (csa & Qa). destruct (VARL va csa a Qa Oa Na) as (-> & Ka & Ca). destruct (RB Logic.I) as (Kb & NVb & Wb).
-      destruct (unify_lt_spec K U t va b 0 r t1 g1 I Ca Ka Ob Kb NVb Wb H) as (I1 & S1 & T1). exists U. auto.
+      destruct (unify_lt_spec m v K U t va b 0 r t1 g1 HV I Ca Ka Ob Kb NVb Wb H) as (I1 & S1 & T1). exists U. auto.
     - destruct IB as (csb & Qb). destruct (VARL vb csb b Qb Ob Nb) as (-> & Kb & Cb). destruct (RA Logic.I) as (Ka & NVa & Wa).
-      cbn [invert] in H. destruct (unify_lt_spec K U t vb a ua r t1 g1 I Cb Kb Oa Ka NVa Wa H) as (I1 & S1 & T1). exists U. split; [exact I1 |]. split; [exact S1 | apply teq_sym; exact T1].
+      destruct (unify_lt_spec m (invert v) K U t vb a ua r t1 g1 HVi I Cb Kb Oa Ka NVa Wa H) as (I1 & S1 & T1). exists U. split; [exact I1 |]. split; [exact S1 | apply teq_sym; exact T1].
     - apply PUSH; [apply (RA Logic.I) | apply (RB Logic.I) | exact H].
     - apply PUSH; [apply (RA Logic.I) | apply (RB Logic.I) | exact H].
     - apply PUSH; [apply (RA Logic.I) | apply (RB Logic.I) | exact H].
     - destruct IB as (csb & Qb). destruct (VARL vb csb b Qb Ob Nb) as (-> & Kb & Cb). destruct (RA Logic.I) as (Ka & NVa & Wa).
-      cbn [invert] in H. destruct (unify_lt_spec K U t vb a 0 r t1 g1 I Cb Kb Oa Ka NVa Wa H) as (I1 & S1 & T1). exists U. split; [exact I1 |]. split; [exact S1 | apply teq_sym; exact T1].
+      destruct (unify_lt_spec m (invert v) K U t vb a 0 r t1 g1 HVi I Cb Kb Oa Ka NVa Wa H) as (I1 & S1 & T1). exists U. split; [exact I1 |]. split; [exact S1 | apply teq_sym; exact T1].
     - apply PUSH; [apply (RA Logic.I) | apply (RB Logic.I) | exact H].
     - destruct IA as (csa & ->). destruct IB as (csb & ->). rewrite (okt_nil _ _ _ _ Oa eq_refl), (okt_nil _ _ _ _ Ob eq_refl).
       apply ret_inv in H. destruct H as (_ & -> & ->). exists U. split; [exact I |]. split; [apply step_refl | apply teq_refl].
     - apply PUSH; [apply (RA Logic.I) | apply (RB Logic.I) | exact H].
     - destruct IB as (csb & Qb). destruct (VARL vb csb b Qb Ob Nb) as (-> & Kb & Cb). destruct (RA Logic.I) as (Ka & NVa & Wa).
-      cbn [invert] in H. destruct (unify_lt_spec K U t vb a 0 r t1 g1 I Cb Kb Oa Ka NVa Wa H) as (I1 & S1 & T1). exists U. split; [exact I1 |]. split; [exact S1 | apply teq_sym; exact T1].
+      destruct (unify_lt_spec m (invert v) K U t vb a 0 r t1 g1 HVi I Cb Kb Oa Ka NVa Wa H) as (I1 & S1 & T1). exists U. split; [exact I1 |]. split; [exact S1 | apply teq_sym; exact T1].
     - apply PUSH; [apply (RA Logic.I) | apply (RB Logic.I) | exact H].
     - apply PUSH; [apply (RA Logic.I) | apply (RB Logic.I) | exact H].
     - destruct IA as (csa & ->). destruct IB as (csb & ->). rewrite (okt_nil _ _ _ _ Oa eq_refl), (okt_nil _ _ _ _ Ob eq_refl).
@@ -1208,26 +1276,27 @@ Section Specs.
 
   (** *** Types *)
 
-  Definition rel_post (a b : tm) (K : N -> vk) (U : N -> N) (t t1 : table) (g1 : list tm) : Prop :=
-    exists K1 U1, inv K1 U1 t1 /\ step K U t K1 U1 t1 /\ teq t1 g1 a b.
+  Definition rel_post (m : bool) (a b : tm) (K : N -> vk) (U : N -> N) (t t1 : table) (g1 : list tm) : Prop :=
+    exists K1 U1, inv K1 U1 t1 /\ step K U t K1 U1 t1 /\ teqm m t1 g1 a b.
 
   Section RelLevel.
     Variable f : nat.
     Variable rec : rel_fn.
-    Hypothesis IHrec : forall a b K U t r t1 g1,
-      inv K U t -> okt K t a -> okt K t b -> rec Invariant a b t = (Done r, t1, g1) -> rel_post a b K U t t1 g1.
+    Variable m : bool.
+    Hypothesis IHrec : forall v a b K U t r t1 g1, vm v m ->
+      inv K U t -> okt K t a -> okt K t b -> rec v a b t = (Done r, t1, g1) -> rel_post m a b K U t t1 g1.
 
-    Lemma zip_spec (vf : nat -> variance) : (forall i, vf i = Invariant) -> forall l l' i K U t r t1 g1,
+    Lemma zip_spec (vf : nat -> variance) : (forall i, vm (vf i) m) -> forall l l' i K U t r t1 g1,
       inv K U t -> Forall (okt K t) l -> Forall (okt K t) l' -> length l = length l' ->
       zip_children rec vf i l l' t = (Done r, t1, g1) ->
-      exists K1 U1, inv K1 U1 t1 /\ step K U t K1 U1 t1 /\ Forall2 (teq t1 g1) l l'.
+      exists K1 U1, inv K1 U1 t1 /\ step K U t K1 U1 t1 /\ Forall2 (teqm m t1 g1) l l'.
     Proof.
       intros Hvf. induction l as [| x rl IHl]; intros l' i K U t r t1 g1 I Hl Hl' Len E; destruct l' as [| y rl']; try discriminate Len; cbn [zip_children] in E.
       - apply ret_inv in E. destruct E as (_ & -> & ->). exists K, U. split; [exact I |]. split; [apply step_refl | constructor].
       - apply Forall_cons_iff in Hl, Hl'. destruct Hl as [Hx Hr], Hl' as [Hy Hr'].
         apply bind_inv in E. destruct E as (r1 & t2 & g2 & g3 & E1 & E2 & ->).
         unfold rel_garg in E1. destruct (kind_eqb (kind_of x) (kind_of y)); [| apply fail_inv in E1; discriminate E1].
-        rewrite Hvf in E1. destruct (IHrec x y K U t r1 t2 g2 I Hx Hy E1) as (K2 & U2 & I2 & S2 & T2).
+        destruct (IHrec (vf i) x y K U t r1 t2 g2 (Hvf i) I Hx Hy E1) as (K2 & U2 & I2 & S2 & T2).
         assert (Hr2 : Forall (okt K2 t2) rl). { eapply Forall_impl; [| exact Hr]. intros z Hz. eapply okt_step; eassumption. }
         assert (Hr2' : Forall (okt K2 t2) rl'). { eapply Forall_impl; [| exact Hr']. intros z Hz. eapply okt_step; eassumption. }
         destruct (IHl rl' (S i) K2 U2 t2 r t1 g3 I2 Hr2 Hr2' ltac:(cbn [length] in Len; lia) E2) as (K3 & U3 & I3 & S3 & T3).
@@ -1237,13 +1306,14 @@ Section Specs.
     Qed.
 
     (** binding an unknown to a type that is not an unknown *)
-    Lemma rel_var_ty_spec K U t var k cs ty r t1 g1 :
+    Lemma rel_var_ty_spec v K U t var k cs ty r t1 g1 :
+      vm v m ->
       inv K U t -> okt K t (Node (HInfer var k) cs) -> nrm t (Node (HInfer var k) cs) -> okt K t ty ->
       kind_of ty = KTy -> (forall h cs', ty = Node h cs' -> head_var h = None) ->
-      rel_var_ty adt_var fn_var f rec Invariant var k ty t = (Done r, t1, g1) ->
-      rel_post (Node (HInfer var k) cs) ty K U t t1 g1.
+      rel_var_ty adt_var fn_var f rec v var k ty t = (Done r, t1, g1) ->
+      rel_post m (Node (HInfer var k) cs) ty K U t t1 g1.
     Proof.
-      intros I Ov Nv Oty Kty NVty H. unfold rel_var_ty in H.
+      intros HV I Ov Nv Oty Kty NVty H. unfold rel_var_ty in H.
       destruct (match k with General => true | Integer => is_integer_ty ty | FloatVar => is_float_ty ty end) eqn:FILT; [| apply fail_inv in H; discriminate H].
       apply bind_inv in H. destruct H as (vc & t2 & g2 & g3 & H1 & H2 & ->). apply get_cell_inv in H1. destruct H1 as (-> & -> & Evar).
       destruct (Nv _ _ var vc eq_refl eq_refl Evar) as (ui & Bvar). rewrite Bvar in H2.
@@ -1253,7 +1323,7 @@ Section Specs.
       apply bind_inv in H2. destruct H2 as (ty1 & t3 & g4 & g5 & H3 & H4 & ->).
       destruct (occ_spec f var ui vc Bvar 0 ty K U t ty1 t3 g4 I Oty Evar KNL H3) as (K3 & U3 & I3 & S3 & O1 & W1 & T1 & V3).
       apply bind_inv in H4. destruct H4 as (g & t4 & g6 & g7 & H5 & H6 & ->).
-      destruct (gen_spec f ui Invariant ty1 K3 U3 t3 g t4 g6 I3 O1 W1 H5) as (-> & K4 & U4 & I4 & S4 & Og & Wg & G4 & HD4).
+      destruct (gen_spec f ui v ty1 K3 U3 t3 g t4 g6 I3 O1 W1 H5) as (-> & K4 & U4 & I4 & S4 & Og & Wg & G4 & HD4).
       apply bind_inv in H6. destruct H6 as (r2 & t5 & g8 & g9 & H7 & H8 & ->).
       (* the heads of [ty], [ty1] and [g] coincide *)
       destruct ty as [| | hty csty]; try (destruct Oty as [Q _]; discriminate Q).
@@ -1268,18 +1338,18 @@ Section Specs.
       { destruct S3 as (_ & N3 & H3'). destruct S4 as (_ & _ & H4'). pose proof (get_some_lt _ _ _ Evar) as Lv.
         rewrite (proj2 (H4' var ltac:(lia))). apply H3'. exact Lv. }
       destruct (bindvar_spec K4 U4 t4 var vc ui (Node hty csg) r2 t5 g8 I4 (G4 var vc V3) Bvar Og Wg) as (-> & I5 & S5 & Bd); try exact H7.
-      { intros h cs0 Q HV. inversion Q; subst. contradiction. }
+      { intros h cs0 Q HV0. inversion Q; subst. contradiction. }
       { intros KN. rewrite K4var, Kvar in KN. destruct k; try (destruct KN; discriminate).
         - destruct hty; try discriminate FILT. destruct s; try discriminate FILT; rewrite (okt_nil _ _ _ _ Og eq_refl); eauto.
         - destruct hty; try discriminate FILT. destruct s; try discriminate FILT; rewrite (okt_nil _ _ _ _ Og eq_refl); eauto. }
       { intros _. exact Kty. }
-      destruct (IHrec (Node hty csg) (Node hty cs1) K4 U4 t5 r t1 g9 I5 (okt_step _ _ _ _ _ _ _ S5 Og)
+      destruct (IHrec v (Node hty csg) (Node hty cs1) K4 U4 t5 r t1 g9 HV I5 (okt_step _ _ _ _ _ _ _ S5 Og)
                       (okt_step _ _ _ _ _ _ _ S5 (okt_step _ _ _ _ _ _ _ S4 O1)) H8) as (K6 & U6 & I6 & S6 & T6).
       exists K6, U6. split; [exact I6 |].
       split; [eapply step_trans; [exact S3 |]; eapply step_trans; [exact S4 |]; eapply step_trans; [exact S5 | exact S6] |].
       cbn [app]. eapply teq_trans; [eapply teq_bound; [reflexivity | apply (proj1 (proj1 S6)); exact Bd] |].
       eapply teq_trans; [eapply teq_mono; [apply pext_refl | | exact T6]; apply incl_appr; apply incl_refl |].
-      apply teq_sym. eapply teq_mono; [| | exact T1].
+      apply teq_sym. eapply teq_mono; [| | apply teq_to_m; exact T1].
       - eapply pext_trans; [apply S4 |]. eapply pext_trans; [apply S5 | apply S6].
       - apply incl_appl. apply incl_refl.
     Qed.
@@ -1309,7 +1379,7 @@ Section Specs.
       inv K U t -> okt K t (Node (HInfer v1 General) cs1) -> nrm t (Node (HInfer v1 General) cs1) ->
       okt K t (Node (HInfer v2 k2) cs2) -> k2 <> General ->
       bind_var v1 (Node (HInfer v2 k2) cs2) t = (Done r, t1, g1) ->
-      rel_post (Node (HInfer v1 General) cs1) (Node (HInfer v2 k2) cs2) K U t t1 g1.
+      rel_post m (Node (HInfer v1 General) cs1) (Node (HInfer v2 k2) cs2) K U t t1 g1.
     Proof.
       intros I O1 N1 O2 NG H. pose proof H as H'. unfold bind_var in H'.
       apply bind_inv in H'. destruct H' as (c & t2 & g2 & g3 & H1 & _ & _). apply get_cell_inv in H1. destruct H1 as (_ & _ & E).
@@ -1326,50 +1396,60 @@ Section Specs.
       - exists K, U. split; [exact I1 |]. split; [exact S1 |]. eapply teq_bound; [reflexivity | exact Bd].
     Qed.
 
-    Lemma rel_ty_norm_spec K U t a b r t1 g1 :
+    Lemma rel_ty_norm_spec v K U t a b r t1 g1 :
+      vm v m ->
       inv K U t -> okt K t a -> okt K t b -> nrm t a -> nrm t b -> kind_of a = KTy -> kind_of b = KTy ->
-      rel_ty_norm adt_var fn_var f rec Invariant a b t = (Done r, t1, g1) -> rel_post a b K U t t1 g1.
+      rel_ty_norm adt_var fn_var f rec v a b t = (Done r, t1, g1) -> rel_post m a b K U t t1 g1.
     Proof.
-      intros I Oa Ob Na Nb Ka Kb H. unfold rel_ty_norm in H.
+      intros HV I Oa Ob Na Nb Ka Kb H. unfold rel_ty_norm in H. pose proof (vm_invert v m HV) as HVi.
       destruct (tm_eqb a b) eqn:EQ.
       { apply tm_eqb_eq in EQ. subst b. apply ret_inv in H. destruct H as (_ & -> & ->). exists K, U. split; [exact I |]. split; [apply step_refl | apply teq_refl]. }
       pose proof (tcls_pfrag K t a Oa Ka) as CA. pose proof (tcls_pfrag K t b Ob Kb) as CB.
-      assert (SYM : rel_post b a K U t t1 g1 -> rel_post a b K U t t1 g1).
+      assert (SYM : rel_post m b a K U t t1 g1 -> rel_post m a b K U t t1 g1).
       { intros (K1 & U1 & I1 & S1 & T1). exists K1, U1. split; [exact I1 |]. split; [exact S1 | apply teq_sym; exact T1]. }
-      assert (KV : forall v k cs x, x = Node (HInfer v k) cs -> okt K t x -> K v = match k with General => KG | Integer => KI | FloatVar => KF end).
-      { intros v k cs x -> (_ & Kv & _). apply allsub_node in Kv. destruct Kv as [Kv _]. destruct k; exact Kv. }
-      assert (UNB : forall v k cs x, x = Node (HInfer v k) cs -> nrm t x -> forall c, get t v = Some c -> exists u, cval c = Unbound u).
-      { intros v k cs x -> Nx c E. eapply Nx; [reflexivity | reflexivity | exact E]. }
+      assert (KV : forall vv k cs x, x = Node (HInfer vv k) cs -> okt K t x -> K vv = match k with General => KG | Integer => KI | FloatVar => KF end).
+      { intros vv k cs x -> (_ & Kv & _). apply allsub_node in Kv. destruct Kv as [Kv _]. destruct k; exact Kv. }
+      assert (UNB : forall vv k cs x, x = Node (HInfer vv k) cs -> nrm t x -> forall c, get t vv = Some c -> exists u, cval c = Unbound u).
+      { intros vv k cs x -> Nx c E. eapply Nx; [reflexivity | reflexivity | exact E]. }
       destruct (tcls_of a) as [v1 k1 | | | | | | |] eqn:TA; try contradiction; destruct (tcls_of b) as [v2 k2 | | | | | | |] eqn:TB; try contradiction;
         cbv iota in H; try (apply fail_inv in H; discriminate H).
       - (* unknown / unknown *)
         destruct CA as (cs1 & Qa). destruct CB as (cs2 & Qb).
         pose proof (KV _ _ _ _ Qa Oa) as K1. pose proof (KV _ _ _ _ Qb Ob) as K2.
-        assert (UNION : union_vars v1 v2 t = (Done r, t1, g1) -> K v1 = K v2 -> rel_post a b K U t t1 g1).
+        assert (UNION : union_vars v1 v2 t = (Done r, t1, g1) -> K v1 = K v2 -> rel_post m a b K U t t1 g1).
         { intros HU HK. destruct (union_spec' K U t v1 v2 r t1 g1 I (UNB _ _ _ _ Qa Na) (UNB _ _ _ _ Qb Nb) HK HU) as (-> & U1 & I1 & S1 & SC).
           exists K, U1. split; [exact I1 |]. split; [exact S1 |]. subst a b. eapply teq_class; [reflexivity | reflexivity | exact SC]. }
+        assert (SUBT : forall x y, m = true -> push_goal (subtype_goal x y) t = (Done r, t1, g1) -> rel_post m x y K U t t1 g1).
+        { intros x y Hm HP. unfold push_goal in HP. injection HP as Hr Ht Hg. subst t1 g1. exists K, U. split; [exact I |]. split; [apply step_refl |].
+          apply teq_subtype; [exact Hm | left; reflexivity]. }
         destruct k1, k2; cbn [tvk_eqb andb] in H; try (apply fail_inv in H; discriminate H);
           try (apply UNION; [exact H | congruence]).
+        + destruct v.
+          * destruct HV as [Q | Q]; [discriminate Q |]. apply SUBT; assumption.
+          * apply UNION; [exact H | congruence].
+          * destruct HV as [Q | Q]; [discriminate Q |]. apply SYM. apply SUBT; assumption.
         + subst a b. eapply bind_specific_spec; try eassumption. discriminate.
         + subst a b. eapply bind_specific_spec; try eassumption. discriminate.
         + apply SYM. subst a b. eapply bind_specific_spec; try eassumption. discriminate.
         + apply SYM. subst a b. eapply bind_specific_spec; try eassumption. discriminate.
       - (* unknown / placeholder *)
         destruct CA as (cs1 & ->). destruct CB as (u & i & cs2 & ->).
-        eapply rel_var_ty_spec; try eassumption. intros h cs' Q. inversion Q; reflexivity.
+        eapply (rel_var_ty_spec v); try eassumption. intros h cs' Q. inversion Q; reflexivity.
       - (* unknown / rigid *)
         destruct CA as (cs1 & ->). destruct CB as (hb & cs2 & -> & NV & _).
-        eapply rel_var_ty_spec; try eassumption. intros h cs' Q. inversion Q; subst. exact NV.
+        eapply (rel_var_ty_spec v); try eassumption. intros h cs' Q. inversion Q; subst. exact NV.
       - (* placeholder / unknown *)
-        destruct CB as (cs1 & ->). destruct CA as (u & i & cs2 & ->). apply SYM. cbn [invert] in H.
-        eapply rel_var_ty_spec; try eassumption. intros h cs' Q. inversion Q; reflexivity.
+        destruct CB as (cs1 & ->). destruct CA as (u & i & cs2 & ->). apply SYM.
+        eapply (rel_var_ty_spec (invert v)); try eassumption. intros h cs' Q. inversion Q; reflexivity.
       - (* rigid / unknown *)
-        destruct CB as (cs1 & ->). destruct CA as (ha & cs2 & -> & NV & _). apply SYM. cbn [invert] in H.
-        eapply rel_var_ty_spec; try eassumption. intros h cs' Q. inversion Q; subst. exact NV.
+        destruct CB as (cs1 & ->). destruct CA as (ha & cs2 & -> & NV & _). apply SYM.
+        eapply (rel_var_ty_spec (invert v)); try eassumption. intros h cs' Q. inversion Q; subst. exact NV.
       - (* rigid / rigid *)
         destruct CA as (ha & ca & -> & _ & SA). destruct CB as (hb & cb & -> & _ & _).
         rewrite SA in H. unfold head_eqb in H. destruct (head_eq_dec ha hb) as [<- | NE]; cbn [andb] in H; [| apply fail_inv in H; discriminate H].
-        destruct (zip_spec (child_variance adt_var fn_var ha Invariant) (child_variance_inv ha) ca cb 0%nat K U t r t1 g1 I
+        assert (CV : forall i, vm (child_variance adt_var fn_var ha v i) m).
+        { intros i. destruct HV as [-> | Q]; [left; apply child_variance_inv | right; exact Q]. }
+        destruct (zip_spec (child_variance adt_var fn_var ha v) CV ca cb 0%nat K U t r t1 g1 I
                            (okt_children K t ha ca Oa) (okt_children K t ha cb Ob) (same_head_len K t ha ca cb Oa Ob) H) as (K1 & U1 & I1 & S1 & T1).
         exists K1, U1. split; [exact I1 |]. split; [exact S1 | apply teq_node; exact T1].
     Qed.
@@ -1377,24 +1457,24 @@ Section Specs.
 
   (** *** The zipper, and [InferenceTable::relate] *)
 
-  Lemma rel_spec : forall f a b K U t r t1 g1,
+  Lemma rel_spec m : forall f v a b K U t r t1 g1, vm v m ->
     inv K U t -> okt K t a -> okt K t b ->
-    rel adt_var fn_var f Invariant a b t = (Done r, t1, g1) -> rel_post a b K U t t1 g1.
+    rel adt_var fn_var f v a b t = (Done r, t1, g1) -> rel_post m a b K U t t1 g1.
   Proof.
-    induction f as [| f IH]; intros a b K U t r t1 g1 I Oa Ob H; cbn [rel] in H; [apply fail_inv in H; discriminate H |].
+    induction f as [| f IH]; intros v a b K U t r t1 g1 HV I Oa Ob H; cbn [rel] in H; [apply fail_inv in H; discriminate H |].
     destruct (kind_of a) eqn:Ka; destruct (kind_of b) eqn:Kb; try (apply fail_inv in H; discriminate H).
     - (* types *)
       unfold rel_ty in H. apply bind_inv in H. destruct H as (tb & t2 & g2 & g3 & H1 & H2 & ->). inversion H1; subst tb t2 g2. clear H1.
-      destruct (shallow_ty_spec K U t (g3) a I Oa) as (Oa' & Ta & Na). destruct (shallow_ty_spec K U t (g3) b I Ob) as (Ob' & Tb & Nb).
+      destruct (shallow_ty_spec m K U t (g3) a I Oa) as (Oa' & Ta & Na). destruct (shallow_ty_spec m K U t (g3) b I Ob) as (Ob' & Tb & Nb).
       pose proof (shallow_ty_kind K U t a I Oa Ka) as KA. pose proof (shallow_ty_kind K U t b I Ob Kb) as KB.
-      destruct (rel_ty_norm_spec f (rel adt_var fn_var f) IH K U t _ _ r t1 g3 I Oa' Ob' Na Nb KA KB H2) as (K1 & U1 & I1 & S1 & T1).
+      destruct (rel_ty_norm_spec f (rel adt_var fn_var f) m IH v K U t _ _ r t1 g3 HV I Oa' Ob' Na Nb KA KB H2) as (K1 & U1 & I1 & S1 & T1).
       exists K1, U1. split; [exact I1 |]. split; [exact S1 |]. cbn [app].
       eapply teq_trans; [eapply teq_step; [exact S1 | apply incl_refl | exact Ta] |].
       eapply teq_trans; [exact T1 |]. apply teq_sym. eapply teq_step; [exact S1 | apply incl_refl | exact Tb].
     - (* lifetimes *)
       unfold rel_lt in H. apply bind_inv in H. destruct H as (tb & t2 & g2 & g3 & H1 & H2 & ->). inversion H1; subst tb t2 g2. clear H1.
-      destruct (shallow1_spec K U t g3 a I Oa Ka) as (Oa' & Ta & Na). destruct (shallow1_spec K U t g3 b I Ob Kb) as (Ob' & Tb & Nb).
-      destruct (rel_lt_norm_spec K U t _ _ r t1 g3 I Oa' Ob' Na Nb H2) as (U1 & I1 & S1 & T1).
+      destruct (shallow1_spec m K U t g3 a I Oa Ka) as (Oa' & Ta & Na). destruct (shallow1_spec m K U t g3 b I Ob Kb) as (Ob' & Tb & Nb).
+      destruct (rel_lt_norm_spec m v K U t _ _ r t1 g3 HV I Oa' Ob' Na Nb H2) as (U1 & I1 & S1 & T1).
       exists K, U1. split; [exact I1 |]. split; [exact S1 |]. cbn [app].
       eapply teq_trans; [eapply teq_step; [exact S1 | apply incl_refl | exact Ta] |].
       eapply teq_trans; [exact T1 |]. apply teq_sym. eapply teq_step; [exact S1 | apply incl_refl | exact Tb].
@@ -1403,10 +1483,11 @@ Section Specs.
       destruct h; try discriminate Ka; discriminate Q.
   Qed.
 
-  Lemma teq_goals t gs gs' : (forall x y, In (outlives_goal x y) gs -> In (outlives_goal x y) gs') ->
-    forall a b, teq t gs a b -> teq t gs' a b.
+  Lemma teq_goals m t gs gs' : (forall x y, In (outlives_goal x y) gs -> In (outlives_goal x y) gs') ->
+    (m = true -> forall x y, In (subtype_goal x y) gs -> In (subtype_goal x y) gs') ->
+    forall a b, teqm m t gs a b -> teqm m t gs' a b.
   Proof.
-    intros I. fix IH 3. intros a b H. destruct H as [a | a b H | a b c H1 H2 | h cs cs' H | h cs v x Hv Hb | h cs h' cs' v w Hv Hw Hc | a b Ka Kb I1 I2].
+    intros I IS. fix IH 3. intros a b H. destruct H as [a | a b H | a b c H1 H2 | h cs cs' H | h cs v x Hv Hb | h cs h' cs' v w Hv Hw Hc | a b Ka Kb I1 I2 | a b Hm Hs].
     - apply teq_refl.
     - apply teq_sym. apply IH. exact H.
     - eapply teq_trans; apply IH; eassumption.
@@ -1416,6 +1497,7 @@ Section Specs.
     - eapply teq_bound; eassumption.
     - eapply teq_class; eassumption.
     - apply teq_outlives; auto.
+    - apply teq_subtype; auto.
   Qed.
 
   (** [InferenceTable::relate], invariant relation, on the fragment. *)
@@ -1427,9 +1509,52 @@ Section Specs.
     intros I Oa Ob H. unfold relate in H.
     destruct (rel adt_var fn_var fuel Invariant a b t) as [[r t1] g1] eqn:E.
     destruct r as [[] | | | s |]; inversion H; subst. clear H.
-    destruct (rel_spec fuel a b K U t tt _ g1 I Oa Ob E) as (K1 & U1 & I1 & S1 & T1).
+    destruct (rel_spec false fuel Invariant a b K U t tt _ g1 (or_introl eq_refl) I Oa Ob E) as (K1 & U1 & I1 & S1 & T1).
     exists K1, U1. split; [exact I1 |]. split; [exact S1 |]. unfold commit.
-    eapply teq_goals; [| exact T1]. intros x y Hin. unfold retain_goals. apply filter_In. split; [exact Hin | reflexivity].
+    eapply teq_goals; [| | exact T1].
+    - intros x y Hin. unfold retain_goals. apply filter_In. split; [exact Hin | reflexivity].
+    - intros Q. discriminate Q.
+  Qed.
+
+  (** dropping the trivial subtype goals ([Unifier::relate]'s final [retain]) loses nothing *)
+  Lemma teq_retain t gs : forall a b, teqm true t gs a b -> teqm true t (retain_goals t gs) a b.
+  Proof.
+    fix IH 3. intros a b H. destruct H as [a | a b H | a b c H1 H2 | h cs cs' H | h cs v x Hv Hb | h cs h' cs' v w Hv Hw Hc | a b Ka Kb I1 I2 | a b Hm Hs].
+    - apply teq_refl.
+    - apply teq_sym. apply IH. exact H.
+    - eapply teq_trans; apply IH; eassumption.
+    - apply teq_node. revert cs cs' H. fix IH2 3. intros cs cs' H. destruct H as [| x y r r' Hxy Hr]; constructor.
+      + apply IH. exact Hxy.
+      + apply IH2. exact Hr.
+    - eapply teq_bound; eassumption.
+    - eapply teq_class; eassumption.
+    - apply teq_outlives; auto; [| intros Q; discriminate Q]. unfold retain_goals. apply filter_In. split; [exact I1 | reflexivity].
+    - destruct (trivial_subtype t (subtype_goal a b)) eqn:TS.
+      + unfold trivial_subtype, subtype_goal in TS.
+        assert (EQ : tm_eqb a b = true -> teqm true t (retain_goals t gs) a b).
+        { intros Q. apply tm_eqb_eq in Q. subst b. apply teq_refl. }
+        destruct a as [| | ha ca]; try (apply EQ; exact TS). destruct ha; try (apply EQ; exact TS).
+        destruct b as [| | hb cb]; try (apply EQ; exact TS). destruct hb; try (apply EQ; exact TS).
+        destruct (get t v) as [c1 |] eqn:E1; [| apply EQ; exact TS]. destruct (get t v0) as [c2 |] eqn:E2; [| apply EQ; exact TS].
+        apply N.eqb_eq in TS. eapply teq_class; [reflexivity | reflexivity |]. exists c1, c2. auto.
+      + apply teq_subtype; [reflexivity |]. unfold retain_goals. apply filter_In. split; [exact Hs |]. rewrite TS. reflexivity.
+  Qed.
+
+  (** [InferenceTable::relate] at ANY variance, on the whole fragment: the invariants are
+      re-established, the table only extends, universes only drop, and the two types are equal
+      under the new bindings up to lifetimes related (in at least one direction) by the returned
+      outlives goals and unknowns related by the returned subtype goals.  In particular the
+      covariant relation of lifetime-free types. *)
+  Lemma relate_sound_any_variance_lemma fuel v a b t gs t' K U :
+    inv K U t -> okt K t a -> okt K t b ->
+    relate adt_var fn_var fuel v a b t = (Done gs, t') ->
+    exists K' U', inv K' U' t' /\ step K U t K' U' t' /\ teqm true t' gs a b.
+  Proof.
+    intros I Oa Ob H. unfold relate in H.
+    destruct (rel adt_var fn_var fuel v a b t) as [[r t1] g1] eqn:E.
+    destruct r as [[] | | | s |]; inversion H; subst. clear H.
+    destruct (rel_spec true fuel v a b K U t tt _ g1 (or_intror eq_refl) I Oa Ob E) as (K1 & U1 & I1 & S1 & T1).
+    exists K1, U1. split; [exact I1 |]. split; [exact S1 |]. unfold commit. apply teq_retain. exact T1.
   Qed.
 
   Lemma inv_empty K U : inv K U empty_table.
@@ -1463,4 +1588,29 @@ Proof.
   - split; [reflexivity |]. split; cbn; repeat split; try lia.
   - split; [reflexivity |]. split; cbn; repeat split; try lia.
   - eexists. split; [vm_compute; reflexivity |]. split; reflexivity.
+Qed.
+
+(** Non-vacuity of the any-variance theorem: the covariant relation of [(?0, &'!1_0 bool)] and
+    [(?1, &'!1_1 bool)] returns a subtype goal between the two unknowns and ONE outlives goal. *)
+Example relate_sound_any_variance_nonvacuous :
+  let ar := fun _ : N => 1%nat in
+  let t := snd (new_variable 1 (snd (new_variable 0 (snd (new_universe empty_table))))) in
+  let K := upd (upd (fun _ => KG) 0 KG) 1 KG in
+  let U := upd (upd (fun _ => 0) 0 0) 1 1 in
+  let bool_ := Node (HScalar Bool) [] in
+  let a := Node (HTuple 2) [ty_var 0 General; Node (HRef Not) [Node (HLPlaceholder 1 0) []; bool_]] in
+  let b := Node (HTuple 2) [ty_var 1 General; Node (HRef Not) [Node (HLPlaceholder 1 1) []; bool_]] in
+  inv ar K U t /\ okt ar K t a /\ okt ar K t b
+  /\ relate (fun _ => []) (fun _ => []) 20 Covariant a b t
+     = (Done [subtype_goal (ty_var 0 General) (ty_var 1 General);
+              outlives_goal (Node (HLPlaceholder 1 0) []) (Node (HLPlaceholder 1 1) [])], t).
+Proof.
+  cbv zeta. split; [| split; [| split]].
+  - pose proof (inv_new (fun _ => 1%nat) (fun _ => KG) (fun _ => 0) (snd (new_universe empty_table)) 0 KG) as H0.
+    assert (I0 : inv (fun _ => 1%nat) (fun _ => KG) (fun _ => 0) (snd (new_universe empty_table))).
+    { pose proof (inv_empty (fun _ => 1%nat) (fun _ => KG) (fun _ => 0)) as E. destruct E; constructor; assumption. }
+    destruct (H0 I0) as [I1 _]. pose proof (inv_new (fun _ => 1%nat) _ _ _ 1 KG I1) as [I2 _]. exact I2.
+  - split; [reflexivity |]. split; cbn; repeat split; try lia.
+  - split; [reflexivity |]. split; cbn; repeat split; try lia.
+  - vm_compute. reflexivity.
 Qed.
